@@ -5,7 +5,7 @@
    group probed before it is entirely FULL (so every lookup reaches it).  After the guard ran only
    successfully re-hashed elements remain, every one of them is findable, and no tombstone is left. *)
 From Coq Require Import ZArith List Bool.
-From HB Require Import RsPrelude Sse2 Gen Group Raw Check WFDefs RehashSafe RehashWF RehashUnwindWF.
+From HB Require Import RsPrelude Sse2 Gen Group Raw Map Check WFDefs MapDefs RawOpsSafe RehashSafe RehashWF RehashUnwindWF MapStepUnwindWF.
 Import ListNotations.
 
 Theorem C04_rehash_unwind_full_invariant :
@@ -33,6 +33,29 @@ Theorem C04_try_reserve_unwind_full_invariant :
   WF B T h t'.
 Proof. exact (fun B T HW HB h ts ta nd => try_reserve_unwind_WF B T HW HB ts ta nd h). Qed.
 
+(* operation level, all 45 HashMap / HashSet operations, PARTIAL hasher (hash_of k = None: hashing key
+   k panics): whenever an operation unwinds -- at the key's own hash, or inside the reserve / in-place
+   rehash / resize it performs, or part-way through extend -- the FULL invariant holds afterwards *)
+Theorem C04_any_operation_unwind_full_invariant :
+  forall B tsize talign needs_drop hash_of alloc_refuses (t : table kv) (op : map_op) t' o evs,
+  WidthOK B -> BackendSpec B -> LayoutOK tsize talign -> op_args_ok op ->
+  WF B kv (fun e => hash_of (k_id e)) t -> TOwn B kv tsize talign t ->
+  map_step B tsize talign needs_drop true hash_of alloc_refuses t op = Ok (t', o, evs) ->
+  is_unwind o = true ->
+  WF B kv (fun e => hash_of (k_id e)) t' /\ TOwn B kv tsize talign t'.
+Proof. exact map_step_unwind_WF. Qed.
+
+(* insert and extend keep the full invariant for a partial hasher WHATEVER the outcome *)
+Theorem C04_extend_partial_hasher_full_invariant :
+  forall B tsize talign needs_drop hash_of alloc_refuses (t : table kv) kvs t' o evs,
+  WidthOK B -> BackendSpec B -> LayoutOK tsize talign -> op_args_ok (OpExtend kvs) ->
+  WF B kv (fun e => hash_of (k_id e)) t -> TOwn B kv tsize talign t ->
+  map_step B tsize talign needs_drop true hash_of alloc_refuses t (OpExtend kvs) = Ok (t', o, evs) ->
+  WF B kv (fun e => hash_of (k_id e)) t' /\ TOwn B kv tsize talign t'.
+Proof. exact map_extend_partial_WF. Qed.
+
 Print Assumptions C04_rehash_unwind_full_invariant.
+Print Assumptions C04_any_operation_unwind_full_invariant.
+Print Assumptions C04_extend_partial_hasher_full_invariant.
 Print Assumptions C04_reserve_unwind_full_invariant.
 Print Assumptions C04_try_reserve_unwind_full_invariant.
